@@ -379,7 +379,7 @@ func c10(r *Report) {
 		// error of the calls it makes (window updates toward the peer, the processors,
 		// the framer) to relayFrames, which returns on it
 		errorsReturnedRule(r, r.Use("h2", "relay.processFrame"), false)
-		for _, n := range []string{"relay.relayFrames", "relay.sendWindowUpdates", "relay.header", "relay.pushPromise", "Config.Proxy"} {
+		for _, n := range []string{"relay.relayFrames", "relay.sendWindowUpdates", "relay.header", "relay.pushPromise", "Config.Proxy", "forwardPreface", "relay.decodeFull", "relay.encodeFull"} {
 			errorsReturnedRule(r, r.W.Fn("h2", n), false)
 		}
 
